@@ -27,6 +27,8 @@ def add (a b : Q) : Q := ⟨a.num * b.den + b.num * a.den, a.den * b.den⟩
 def div (a b : Q) : Q :=
   if b.num < 0 then ⟨-(a.num * b.den), a.den * b.num.natAbs⟩ else ⟨a.num * b.den, a.den * b.num.natAbs⟩
 def ofInt (i : Int) : Q := ⟨i, 1⟩
+/-- `a ≤ b` for fractions with positive denominators -/
+def le (a b : Q) : Bool := decide (a.num * b.den ≤ b.num * a.den)
 /-- value equality of two fractions with positive denominators -/
 def eqv (a b : Q) : Bool := a.num * b.den == b.num * a.den
 end Q
@@ -36,6 +38,9 @@ def rhe (n d : Nat) : Nat :=
   let q := n / d
   let r := n % d
   if 2 * r < d then q else if 2 * r > d then q + 1 else if q % 2 = 0 then q else q + 1
+
+/-- the fraction `m · 2^(-k)` -/
+def scaled2 (k : Int) (m : Nat) : Q := if k ≥ 0 then ⟨m, 2 ^ k.toNat⟩ else ⟨m * 2 ^ (-k).toNat, 1⟩
 
 /-- nearest double (ties to even) of the non-negative rational `n/d`, `d > 0` -/
 def rneNat (n d : Nat) : Q :=
@@ -50,8 +55,7 @@ def rneNat (n d : Nat) : Q :=
   -- gradual underflow: the spacing of doubles never gets finer than 2^-1074
   let k : Int := if k1 > 1074 then 1074 else k1
   let (a, b) := scaled k
-  let m := rhe a b
-  if k ≥ 0 then ⟨m, 2 ^ k.toNat⟩ else ⟨m * 2 ^ (-k).toNat, 1⟩
+  scaled2 k (rhe a b)
 
 def rne (q : Q) : Q :=
   if q.num < 0 then let r := rneNat q.num.natAbs q.den; ⟨-r.num, r.den⟩ else rneNat q.num.natAbs q.den
